@@ -122,7 +122,7 @@ JOBS = {
                  "laws; non-trivial = the two labels differ"},
     ],
     "C14": [
-        {"module": "MC_Tag", "spec": "Spec", "invariants": ["InvParse", "InvTagged", "InvUntagged", "InvExclusive", "InvToTagged", "Emit"],
+        {"module": "MC_Tag", "spec": "Spec", "invariants": ["InvParse", "InvTagged", "InvF8", "InvUntagged", "InvExclusive", "InvToTagged", "Emit"],
          "quick": {"timeout": 300}, "thorough": {"timeout": 1200},
          "rule": "(body, tag sequence of length 0/1/2, tag number, tag-head width) tuples, each decoded tagged and untagged as all six "
                  "taggable types, plus tagged encoding of every accepted body; all non-trivial"},
